@@ -7,6 +7,7 @@
 (* (line.split(' ')).  Tokens are abstracted to classes:                   *)
 (*    w   word without colon that int() rejects  (m.C, 0.D, -, x.html)     *)
 (*    py  py:<type>          std  <other domain>:<type>                    *)
+(*    pyx <domain that merely starts with py>:<type>   (pyramid:view)      *)
 (*    int something int() accepts (-1, 0, 1)                               *)
 (*    e   the empty token (two spaces in a row, trailing space)            *)
 (*    d   a location ending in '$'                                         *)
@@ -32,12 +33,12 @@ EXTENDS Naturals, Sequences, FiniteSets, TLC, Json, IOUtils
 CONSTANTS Mode, Classes, MaxCols, MaxDepth, Open, Fixed
 
 FixIndex == "prio-last-column-indexerror" \in Fixed   \* missing location column -> ValueError
-FixType  == "name-token-taken-as-priority" \in Fixed  \* the priority column follows a <domain>:<type> column
+FixEmpty == "empty-token-shifts-columns" \in Fixed   \* columns may be separated by more than one space
 
 FileRows == IF Mode = "file" THEN JsonDeserialize(IOEnv.ROWS_FILE) ELSE <<>>
 
 IsInt(c)    == c = "int"
-HasColon(c) == c \in {"py", "std"}
+HasColon(c) == c \in {"py", "std", "pyx"}
 Range(s)    == {s[i] : i \in DOMAIN s}
 
 \* ----------------------------------------------------------- _parseInventoryLine
@@ -45,8 +46,11 @@ Range(s)    == {s[i] : i \in DOMAIN s}
 RECURSIVE FirstInt(_, _)
 FirstInt(row, k) ==                    \* the while loop :162-170, prio_idx starts at 2; Len(row) = not found
    IF k >= Len(row) THEN Len(row)
-   ELSE IF IsInt(row[k+1]) /\ (FixType => HasColon(row[k])) THEN k
+   ELSE IF IsInt(row[k+1]) THEN k
    ELSE FirstInt(row, k + 1)
+RECURSIVE TypBack(_, _), NameEnd(_, _)
+TypBack(row, j) == IF j > 1 /\ row[j] = "e" THEN TypBack(row, j - 1) ELSE j      \* while typ_idx > 0 and not parts[typ_idx]
+NameEnd(row, j) == IF j >= 1 /\ row[j] = "e" THEN NameEnd(row, j - 1) ELSE j       \* .rstrip(' ')
 ImplParse(row) ==
    LET n == Len(row)
        k == FirstInt(row, 2)
@@ -57,7 +61,12 @@ ImplParse(row) ==
       ELSE LET disp == [i \in 1..(n - (k + 2)) |-> k + 2 + i]                         \* parts[prio_idx + 2:]
            IN IF disp = <<>> \/ (Len(disp) = 1 /\ row[disp[1]] = "e")                 \* ' '.join(..) == '' :177
                 THEN [kind |-> "ValueError", why |-> "empty display name"]
-                ELSE [kind |-> "ok", name |-> [i \in 1..(k - 1) |-> i], typ |-> k, prio |-> k + 1, loc |-> k + 2]
+                ELSE IF ~FixEmpty
+                       THEN [kind |-> "ok", name |-> [i \in 1..(k - 1) |-> i], typ |-> k, prio |-> k + 1, loc |-> k + 2]
+                       \* repaired: the type is the last non-empty token before the priority, the name loses its
+                       \* trailing spaces
+                       ELSE LET ty == TypBack(row, k)  nm == NameEnd(row, ty - 1)
+                            IN [kind |-> "ok", name |-> [i \in 1..nm |-> i], typ |-> ty, prio |-> k + 1, loc |-> k + 2]
 \* _parseInventory (:108-132): what one line does to the result
 LineEffect(row) ==
    LET res == ImplParse(row) IN
@@ -87,17 +96,21 @@ RefParse(row) ==
                ty == NextFull(r, j)
                pr == NextFull(r, ty)
            IN [kind |-> "ok", name |-> [i \in 1..j |-> i], typ |-> ty, prio |-> pr, loc |-> pr + 1]
-\* a line a consumer of Python references can use
-Usable(row) == LET m == RefParse(row) IN m.kind = "ok" /\ row[m.typ] = "py"
+\* a line a consumer of Python references can use: a py: entry whose name is not just white space
+Usable(row) == LET m == RefParse(row) IN m.kind = "ok" /\ row[m.typ] = "py" /\ \E i \in DOMAIN m.name : row[m.name[i]] # "e"
 
 \* the property on one line
 NoCrash(row) == ImplParse(row).kind # "Crash"
+\* "non-Python lines are skipped": an entry of another domain never becomes a link
+NonPythonSkipped(row) == LET m == RefParse(row) IN
+                            (m.kind = "ok" /\ HasColon(row[m.typ]) /\ row[m.typ] # "py") => LineEffect(row) # "link"
 UsableResolves(row) == Usable(row) => LET i == ImplParse(row) m == RefParse(row) IN
                           i.kind = "ok" /\ i.name = m.name /\ i.typ = m.typ /\ i.loc = m.loc
 RowClasses(row) ==
    (IF ~NoCrash(row) THEN {"prio-last-column-indexerror"} ELSE {})
+   \cup (IF NoCrash(row) /\ ~NonPythonSkipped(row) THEN {"foreign-domain-linked"} ELSE {})
    \cup (IF NoCrash(row) /\ ~UsableResolves(row)
-           THEN (IF "e" \in Range(row) THEN {"empty-token-shifts-columns"} ELSE {"name-token-taken-as-priority"})
+           THEN (IF "e" \in Range(row) THEN {"empty-token-shifts-columns"} ELSE {"usable-line-lost"})
            ELSE {})
 
 \* -------------------------------------------------------------------- the writer
@@ -121,14 +134,14 @@ FetchKinds  == {"ok", "none", "empty", "raises"}         \* IntersphinxCache.get
 HeaderKinds == {"normal", "missing", "onlycomments", "nonewline"}
 ZipKinds    == {"ok", "notzlib", "truncated"}
 TextKinds   == {"ok", "badutf8"}
-LineKinds   == {"py", "std", "noint", "priolast", "nodisplay", "blank", "dupdup"}
+LineKinds   == {"py", "std", "pyx", "noint", "priolast", "nodisplay", "blank"}
 LineRow(lk) == CASE lk = "py" -> <<"w", "py", "int", "w", "w">>
                  [] lk = "std" -> <<"w", "w", "std", "int", "w", "w", "w">>
                  [] lk = "noint" -> <<"w", "py", "w", "w">>
                  [] lk = "priolast" -> <<"w", "py", "int">>
                  [] lk = "nodisplay" -> <<"w", "py", "int", "w">>
                  [] lk = "blank" -> <<"e">>
-                 [] lk = "dupdup" -> WriteLine(<<FALSE, TRUE, TRUE>>)
+                 [] lk = "pyx" -> <<"w", "pyx", "int", "w", "w">>
 
 VARIABLES row, dups, cfg, pc, li, errors, links
 vars == <<row, dups, cfg, pc, li, errors, links>>
@@ -184,14 +197,16 @@ StillResolve == pc = "done" => (IF StageFault THEN links = {} ELSE links = Usabl
 UpdateClasses ==
    IF pc = "raised" THEN {"prio-last-column-indexerror"}
    ELSE IF pc = "done" /\ ~(ReportsOnce /\ StillResolve) THEN
-        (IF \E i \in DOMAIN cfg.lines : cfg.lines[i] = "dupdup" THEN {"name-token-taken-as-priority"} ELSE {"update-contract"})
+        {"update-contract"}
    ELSE {}
 
 \* design-level invariants, relaxed by exactly the open known findings
 Terminal == pc \in {"done", "raised"}
 DesignKnown ==
    /\ Mode \in {"rows", "file"} => RowClasses(row) \subseteq Open
-   /\ Mode = "objs" => (RoundTrip(dups) \/ "name-token-taken-as-priority" \in Open)
+   \* names with renamed duplicates are hypothetical: the writer walks `contents`, where a superseded "X 0" no
+   \* longer is (the harness checks that on real projects), so only plain names are ever written
+   /\ Mode = "objs" => ((\A i \in DOMAIN dups : ~dups[i]) => (RoundTrip(dups) /\ RoundTripSphinx(dups)))
    /\ Mode = "update" => (Terminal => UpdateClasses \subseteq Open)
 
 Emit ==
